@@ -45,6 +45,10 @@ inductive Ex where
   | param0                   -- `param[0]` of the enclosing `for _, param := range params`
   | lenOld                   -- resize(): `len(primary)` (the snapshot of the old primary screen)
   | lenOld0                  -- resize(): `len(primary[0])` (a checked access: see `Stmt.forS`)
+  | cur (k : Nat)            -- sgr(): `params[i][k]` inside `Stmt.forSgr` (a checked access)
+  | nxt (j k : Nat)          -- sgr(): `params[i+j][k]`, j ≥ 1 (a checked access)
+  | lenCur                   -- sgr(): `len(params[i])`
+  | lenFrom                  -- sgr(): `len(params[i:])`
   deriving DecidableEq, Repr, Inhabited
 
 inductive Cmp where
@@ -58,6 +62,18 @@ inductive Cond where
   | not (a : Cond)
   | mode (f : ModeField)     -- vt.mode.f
   | lastCol                  -- vt.lastCol
+  deriving DecidableEq, Repr, Inhabited
+
+/-- which colour of the pen -/
+inductive Slot where
+  | fg | bg | ul
+  deriving DecidableEq, Repr, Inhabited
+
+/-- a colour value: `0`, `vaxis.IndexColor(uint8(e))`, `vaxis.RGBColor(uint8(a), uint8(b), uint8(c))` -/
+inductive ColEx where
+  | zero
+  | index (e : Ex)
+  | rgb (a b c : Ex)
   deriving DecidableEq, Repr, Inhabited
 
 /-- Upper bound of an ascending loop `v < e` / `v <= e` / a conjunction of those. -/
@@ -182,6 +198,26 @@ inductive Stmt where
   | printCell
   /-- resize(): `wrapped = cell.wrapped` (a bool local, held as 0/1) -/
   | assignCellWrapped (k : Nat)
+  /-- sgr(): `if len(params) == 0 { params = [][]int{{0}} }` (only as the first statement of a function whose other reads of
+      the parameter list are inside `forSgr`) -/
+  | pmDefault0
+  /-- sgr(): `for i := 0; i < len(params); i += 1 { body }` where the body reads the parameter list only relative to `i`
+      (`Ex.cur`, `Ex.nxt`, `Ex.lenCur`, `Ex.lenFrom`) and changes `i` only by `i += c` (`skipParams`) -/
+  | forSgr (body : Stmt)
+  /-- `i += c` inside `forSgr` -/
+  | skipParams (c : Nat)
+  /-- `vt.cursor.Attribute |= bit` / `&^= bit` / `= 0` -/
+  | attrOn (bit : Nat)
+  | attrOff (bit : Nat)
+  | attrClear
+  /-- `vt.cursor.Foreground / Background / UnderlineColor = …` -/
+  | setCol (slot : Slot) (c : ColEx)
+  /-- `vt.cursor.UnderlineStyle = vaxis.Underline…` -/
+  | setUl (n : Nat)
+  /-- `log.Error(…)`: no effect on the emulator state -/
+  | logErr
+  /-- an `if` whose condition contains checked accesses into the parameter list (`params[i+1][0]`, `params[i][1]`) -/
+  | iteP (c : Cond) (t f : Stmt)
   /-- `fmt.Fprintf(vt.pty, …)`: a reply to the child; no effect on the emulator state -/
   | reply
   /-- `ch := vt.activeScreen[r][c]` (a copy of the cell, held in the frame) -/
